@@ -9,7 +9,7 @@ ASSUMPTIONS = [
     "values are opaque tokens; task bodies have no side effects besides the harness record",
     "exhaustive only within the alphabet and bounds listed in coverage.bounds",
 ]
-MENU = ["leaf:cw", "ins:sync", "ins:iv", "leaf:sh", "leaf:re", "ins:yempty", "ins:ynone", "ins:mkitem", "ins:mkchild", "wrap:try", "ins:raise", "item:err", "shape:T", "shape:D", "shape:nest", "leaf:n"]
+MENU = ["leaf:cw", "ins:sync", "ins:iv", "leaf:sh", "leaf:re", "ins:yempty", "ins:ynone", "ins:mkitem", "ins:mkchild", "wrap:try", "ins:raise", "item:err", "item:unset", "shape:T", "shape:D", "shape:nest", "leaf:n"]
 CATS = ["resumed-uncomputed", "step-count", "step-after-computed", "task-computed-twice", "task-not-computed", "awaited-not-computed", "start-order", "started-extra", "started-missing", "scheduler-residue", "hang", "worker-died", "r2-started"]
 _MENU42 = {"menu": ["ins:sync", "ins:iv", "leaf:sh", "leaf:re", "ins:mkchild", "wrap:try", "ins:raise", "item:err"]}
 LADDER = {"quick": [(5, 0, ["call"]), (4, 1, ["call"]), (3, 2, ["call"])],
@@ -31,6 +31,14 @@ def jobs(tier, seed):
             yield {"deep": [[shape, d]]}
         yield {"deep": [[shape, d] for d in DEPTHS[tier] if d <= 64]}
     for j in progx.ladder_jobs(LADDER[tier], MENU, CATS, SPEC):
+        yield j
+    # shape family: one task yielding one structure of every shape (depth 2, arity <= 3) over futures that need a
+    # flush, child tasks and constants: the task must not be resumed before every future in the structure is computed
+    leaves = (gen.IA, ("c", ("t", (("y", gen.IB),))), gen.K)
+    m = 48 if tier == "quick" else 96
+    for i in range(m):
+        j = {"shape_slice": [i, m, tier], "shape_leaves": leaves, "menu": [], "k": 0, "convs": ["call"], "cats": CATS}
+        j.update(SPEC)
         yield j
 
 
